@@ -63,6 +63,15 @@ type Clause struct {
 	line  int
 }
 
+type scriptStmt struct {
+	kind   string // let assert use generalize
+	let    letStmt
+	clause *Clause
+	name   string // lemma name (use) or variable (generalize)
+	args   []Expr
+	text   string
+}
+
 type letStmt struct {
 	name string
 	expr Expr
@@ -81,6 +90,7 @@ type Contract struct {
 	foralls  []qvar    // contract-level universally quantified variables
 	cases    []*Clause // explicit case split applied to every postcondition
 	asserts  []*Clause // proved at function exit, then available to the postconditions
+	script   []scriptStmt // let / assert / use / generalize in source order
 	invs     map[int][]*Clause
 	decr     map[int]*Clause
 	opts     map[string]string
@@ -539,11 +549,20 @@ func (cs *ContractSet) parseFile(pkg, path, src string) error {
 				cur.ensures = append(cur.ensures, cl)
 			}
 		case "assert":
+			label := ""
+			if strings.HasPrefix(rest, "[") {
+				if i := strings.Index(rest, "]"); i > 0 {
+					label = rest[1:i]
+					rest = strings.TrimSpace(rest[i+1:])
+				}
+			}
 			e, vars, err := parseExpr(rest)
 			if err != nil {
 				return errf("%v", err)
 			}
-			cur.asserts = append(cur.asserts, &Clause{text: rest, expr: e, vars: vars, line: ln + 1})
+			cl := &Clause{label: label, text: rest, expr: e, vars: vars, line: ln + 1}
+			cur.asserts = append(cur.asserts, cl)
+			cur.script = append(cur.script, scriptStmt{kind: "assert", clause: cl, text: rest})
 		case "cases":
 			e, _, err := parseExpr(rest)
 			if err != nil {
@@ -568,6 +587,7 @@ func (cs *ContractSet) parseFile(pkg, path, src string) error {
 			l := letStmt{name: strings.TrimSpace(rest[:i]), expr: e, text: rest}
 			if word == "let" {
 				cur.lets = append(cur.lets, l)
+				cur.script = append(cur.script, scriptStmt{kind: "let", let: l, text: rest})
 			} else {
 				cur.prelets = append(cur.prelets, l)
 			}
@@ -589,6 +609,23 @@ func (cs *ContractSet) parseFile(pkg, path, src string) error {
 			}
 		case "use":
 			cur.uses = append(cur.uses, rest)
+			e, _, err := parseExpr(rest)
+			if err != nil {
+				return errf("%v", err)
+			}
+			call, ok := e.(*ECall)
+			if !ok {
+				return errf("use needs lemma(args)")
+			}
+			id, ok := call.fun.(*EIdent)
+			if !ok {
+				return errf("use needs lemma(args)")
+			}
+			cur.script = append(cur.script, scriptStmt{kind: "use", name: id.name, args: call.args, text: rest})
+		case "generalize":
+			for _, n := range strings.Fields(strings.ReplaceAll(rest, ",", " ")) {
+				cur.script = append(cur.script, scriptStmt{kind: "generalize", name: n, text: rest})
+			}
 		case "modular":
 			cur.modular = true
 		case "trusted":
@@ -1089,6 +1126,12 @@ func (x *Exec) evalCall(st *State, env *Env, n *ECall) Value {
 		}
 		if !isPkg {
 			recv := x.eval(st, env, sel.x)
+			if f, ok := x.funcField(st, recv, sel.name); ok {
+				if f.fn != nil {
+					x.coerceArgs(args, f.fn.Signature)
+				}
+				return x.specGoCall(st, func() []Out { return x.callClosure(st, f, args, 1) })
+			}
 			return x.specMethodCall(st, recv, sel.name, args)
 		}
 	}
@@ -1111,6 +1154,18 @@ func (x *Exec) evalCall(st *State, env *Env, n *ECall) Value {
 		x.coerceArgs(args, f.fn.Signature)
 	}
 	return x.specGoCall(st, func() []Out { return x.callClosure(st, f, args, 1) })
+}
+
+// funcField: a function-valued struct field reachable from v (e.g. s.extrude).
+func (x *Exec) funcField(st *State, v Value, name string) (f *Func, ok bool) {
+	defer func() {
+		if r := recover(); r != nil {
+			f, ok = nil, false
+		}
+	}()
+	fv := x.selectField(st, v, name)
+	f, ok = fv.(*Func)
+	return
 }
 
 func (x *Exec) coerceArgs(args []Value, sig *types.Signature) {
